@@ -37,13 +37,13 @@ Definition res_eqb (a b : res) : bool :=
    1 byte / rune offsets where ES5 counts UTF-16 units
    2 lone surrogates (and halves of a pair) are not representable: they become U+FFFD
    3 U+FFFD doubles as the "out of range" sentinel of charAt / charCodeAt / s[i]
-   4 charAt / charCodeAt dereference nil for receivers that are not String objects (Go panic)
+   4 (fixed 8a02cb3, no longer produced) charAt / charCodeAt receivers that are not String objects
    5 undefined this is replaced by the global object; substr does not reject null
    6 lastIndexOf: NaN position taken as 0, -Infinity as +Infinity
-   7 int64 wrap-around in substr / lastIndexOf ends in a Go slice-bounds panic
-   8 "01", "+1", "-0" accepted as index property names of a string
-   9 an argument conversion required by the ES5 step order is skipped (split with limit 0,
-     lastIndexOf on the empty string)
+   7 (fixed 27b5748, no longer produced) int64 wrap-around in substr / lastIndexOf
+   8 (fixed 4b90749, no longer produced) "01", "+1", "-0" accepted as index names
+   9 argument conversions out of the ES5 step order: skipped (split with limit 0, lastIndexOf on
+     the empty string) or reordered (charAt / charCodeAt convert the position before this)
    10 a replaced String.prototype.toString is applied to primitive string receivers *)
 Definition has_lone (u : str) : bool := negb (zlist_eqb (enc16 (dec16 u)) u).
 Definition arg_lone (a : arg) : bool := match a with AStr u => has_lone u | _ => false end.
@@ -66,18 +66,13 @@ Definition classify (m : meth) (r : recv) (args : list arg) : Z :=
   | RUndef => 5
   | RNull => 5
   | _ =>
-      if is_charm m && (match this_object r with TPrim | TOtherObj => true | _ => false end) then 4
-      else if (match call_model m r args with Some (VErr 9) => true | _ => false end) then 7
-      else if (match m with MLastIndexOf => true | _ => false end) &&
+      if (match m with MLastIndexOf => true | _ => false end) &&
               (match to_number (arg_at args 1) with
                | Some b => (2 <=? length args)%nat && negb (match arg_at args 1 with AUndef => true | _ => false end) &&
                            (is_nan_bits b || (b =? ninf_bits))
                | None => false end) then 6
       else if has_lone (recv_units r) || existsb arg_lone args then 2
       else if is_indexy m && has_fffd (recv_units r) then 3
-      else if (match m, arg_at args 0 with
-               | MIndex, AStr p => match canonical_index p with None => 0 <=? string_to_array_index p | Some _ => false end
-               | _, _ => false end) then 8
       else if res_has_sur (call_spec m r args) then 2
       else 1
   end.
@@ -121,9 +116,9 @@ Fixpoint chain_class (cur_m cur_s : str) (ops : list (meth * list arg)) : Z :=
 Definition step_eqb (a b : res * list Z) : bool := res_eqb (fst a) (fst b) && zlist_eqb (snd a) (snd b).
 
 Definition model_step (st : option meth * erecv * list earg) : option (res * list Z) :=
-  let '(mo, er, ea) := st in effect_step plan_model call_model m_fromCharCode mo er ea.
+  let '(mo, er, ea) := st in effect_step plan_model this_last_model call_model m_fromCharCode mo er ea.
 Definition spec_step (st : option meth * erecv * list earg) : option (res * list Z) :=
-  let '(mo, er, ea) := st in effect_step (fun m _ ea => plan_spec m ea) call_spec fromCharCode mo er ea.
+  let '(mo, er, ea) := st in effect_step (fun m _ ea => plan_spec m ea) (fun _ => false) call_spec fromCharCode mo er ea.
 
 Fixpoint all_steps (f : option meth * erecv * list earg -> option (res * list Z))
          (l : list (option meth * erecv * list earg)) : option (list (res * list Z)) :=
@@ -154,9 +149,8 @@ Fixpoint effect_class (l : list (option meth * erecv * list earg)) : Z :=
 
 (* ---------- a replaced String.prototype.toString ---------- *)
 (* otto wraps a primitive receiver of a member call in a String object and then converts that
-   object with the (replaced) toString; charAt / charCodeAt read the wrapped value directly. *)
+   object with the (replaced) toString. *)
 Definition patch_model (m : meth) (r : recv) (x : str) : recv :=
-  if is_charm m then r else
   match r with RLit _ => RLit x | RStrObj _ => RStrObj x | _ => r end.
 (* ES5: ToString of a primitive is the primitive; of a String object it calls toString *)
 Definition patch_spec (r : recv) (x : str) : recv :=
